@@ -259,9 +259,35 @@ STANDARD = {
 }
 
 
+# recorded sessions (code -> spec, harness/sessiontrace.py): operation weights per property, (traces, steps) quick / thorough
+QUIET = dict(cli=0, redeliver=0, damage=0, restore=0, delete=0, tear=0, cachedir=0)
+PROFILES = {
+    "C01": (dict(QUIET, open=25, load=40, mutate=6, copy=8, drop=3), (0,)),
+    "C02": (dict(QUIET, open=18, load=45, mutate=16, copy=3, drop=2), (0,)),
+    "C03": (dict(open=40, redeliver=14, load=5, mutate=0, damage=2, tear=2), (0, 1)),
+    "C04": (dict(open=40, redeliver=14, load=5, mutate=0, damage=2, tear=2), (0, 1)),
+    "C06": (dict(open=42, cli=12, redeliver=6, load=6, mutate=0, damage=0, restore=0), (0, 1)),
+    "C07": (dict(open=42, cli=12, redeliver=10, load=6, mutate=0, damage=0, restore=0, tear=6), (0, 1)),
+    "C09": (dict(open=42, cli=8, tear=16, delete=6, cachedir=8, load=3, mutate=0, redeliver=0, damage=0, restore=0), (0, 1)),
+    "C10": (dict(), (0, 1)),
+    "C12": (dict(open=42, cli=12, redeliver=6, load=8, copy=6, damage=0, restore=0), (0, 1)),
+    "C13": (dict(open=42, cli=12, redeliver=8, load=4, mutate=0, damage=0, restore=0), (0, 1)),
+    "C14": (dict(open=40, redeliver=14, load=3, mutate=0, damage=2, tear=2), (0, 1)),
+    "C16": (dict(open=40, redeliver=14, load=3, mutate=0, damage=2, tear=2), (0, 1)),
+    "C18": (dict(open=40, damage=20, restore=8, redeliver=0, load=3, mutate=0, cli=4, tear=2), (0, 1)),
+    "C19": (dict(QUIET, open=22, load=40, copy=14, mutate=5, drop=4), (0,)),
+}
+
+
 def standard(chk):
     """the session part of a registered check: histories in one process, judged for the classes the property owns"""
+    from . import sessiontrace
+
     out = []
+    prof, vers = PROFILES[chk.pid]
+    own = {c for c, ps in OWNERS.items() if chk.pid in ps}
+    nt, st = (16, 40) if chk.tier == "quick" else (160, 60)
+    sessiontrace.run(chk, nt, st, own, profile=prof, versions=vers)
     for cfg, pats, need, locs, nsim, keep, depth in STANDARD[chk.pid]:
         q = 0 if chk.tier == "quick" else 1
         versions = (0,) if cfg in ("MC_Alos2_sim_loads", "MC_Alos2_sim_mutate") else (0, 1)
